@@ -225,7 +225,6 @@ class SampledData(BinwiseData):
             self.binning.copy(),
             self.data + other.data,
             self.samples + other.samples,
-            closed=self.closed,
         )
 
     def __sub__(self, other: Any) -> TypeSampledData:
@@ -238,7 +237,6 @@ class SampledData(BinwiseData):
             self.binning.copy(),
             self.data - other.data,
             self.samples - other.samples,
-            closed=self.closed,
         )
 
     def _make_bin_slice(self: TypeSampledData, item: TypeSliceIndex) -> TypeSampledData:
